@@ -175,6 +175,52 @@ def rule_DV(ctx, fm):
     ctx.check('C10.DV.linear', '_dipole_vector segment centre and length',
               ok, 'clipped segment centre / length fraction changed',
               ctx.where(fm, fn))
+    # clipping of the dipole to a cell: parametric coordinates of the node
+    # planes along the dipole, per axis, and the clipped interval [al, ar]
+    ext0 = find('_d_ = _p_[1, :] - _p_[0, :]', fn)
+    inv = find('_i_[_i_ != 0] = 1 / _i_[_i_ != 0]', fn)
+    okc = len(ext0) == 1 and len(inv) == 1
+    A = {}
+    if okc:
+        P, Dn, In = ext0[0][1]['_p_'], ext0[0][1]['_d_'], inv[0][1]['_i_']
+        okc = has(f'{In} = {Dn}.copy()', fn)
+        for a, ax in enumerate('xyz'):
+            f = find(f'_a_ = ({W[a]["n"]} - {P}[0, {a}]) * {In}[{a}]', fn)
+            okc = okc and len(f) == 1
+            if f:
+                A[a] = f[0][1]['_a_']
+    ctx.check('C10.DV.clipping', '_dipole_vector: parametric node planes',
+              okc and len(A) == 3, 'node planes are not expressed as '
+              '(node - first electrode)/extent per axis', ctx.where(fm, fn))
+    if len(A) == 3:
+        vs = find(f'_aa_ = np.vstack([[{A[0]}[{W[0]["i"]}], '
+                  f'{A[0]}[{W[0]["i"]} + 1]], [{A[1]}[{W[1]["i"]}], '
+                  f'{A[1]}[{W[1]["i"]} + 1]], [{A[2]}[{W[2]["i"]}], '
+                  f'{A[2]}[{W[2]["i"]} + 1]]])', fn)
+        okc = len(vs) == 1
+        if okc:
+            aa = vs[0][1]['_aa_']
+            okc = has(f'{aa} = np.sort({aa}[{Dn} != 0, :], 1)', fn) and \
+                has(f'_al_ = max(0, {aa}[:, 0].max())', fn) and \
+                has(f'_ar_ = min(1, {aa}[:, 1].min())', fn)
+        ctx.check('C10.DV.clipping', '_dipole_vector: clipped interval of '
+                  'the cell', okc, 'the part of the dipole inside the cell '
+                  'is not [max(0, entries), min(1, exits)] over the axes '
+                  'with non-zero extent', ctx.where(fm, fn))
+        for a, ax in enumerate('xyz'):
+            lp_ = [n for n in ast.walk(fn) if isinstance(n, ast.For) and
+                   isinstance(n.target, ast.Name) and
+                   n.target.id == W[a]['i']]
+            okl = len(lp_) == 1
+            if okl:
+                r_ = find(f'range(_r_[0], min(_r_[1] + 1, {A[a]}.size - 1))',
+                          lp_[0].iter)
+                okl = len(r_) == 1 and has(
+                    f'{r_[0][1]["_r_"]} = min_max_ind({W[a]["n"]}, {a})', fn)
+            ctx.check('C10.DV.clipping', f'_dipole_vector: cell range axis '
+                      f'{ax}', okl, f'cells visited along {ax} are not those '
+                      'between the smallest and largest electrode coordinate '
+                      'of this axis', ctx.where(fm, fn))
     # normalisation guard for all three components, then scaling
     loops = [n for n in fn.body if isinstance(n, ast.For) and find(
         '_f_ /= _s_', n)]
